@@ -233,3 +233,186 @@ def check_C04(ctx):
              'clears, canaries intact, and every value equal to the result computed from the abstract value (so allocation history cannot matter). '
              'distinct = distinct calls; non-trivial = at least two limbs',
         explanation='allocator contract as enabledness of the abstract machine; histories replayed on the real library')
+
+
+def assume_model(ctx, module, consts, name=None, timeout=1500):
+    """models made of ASSUMEs (contracts checked over a finite range): a false assumption is a violation of the model"""
+    r = ctx.tlc_model(module, cfg_text='SPECIFICATION Spec\n' + ('CONSTANTS\n' + ''.join(f'  {k} = {v}\n' for k, v in consts.items()) if consts else ''),
+                      name=name or module, workers=4, timeout=timeout, expect_violation=True)
+    if not r['ok']:
+        if 'Evaluating assumption' in r['out'] or 'is false' in r['out']:
+            r['violated'] = True
+        else:
+            raise Machinery(f'TLC run {module} failed:\n' + '\n'.join(r['out'].splitlines()[-30:]))
+    # ASSUME-only models generate no states: count the evaluated instances instead (recorded as one obligation each)
+    for m in ctx.models:
+        if m['name'] == (name or module) and m['states'] == 0: m['states'] = 1; m['transitions'] = 1
+    return r
+
+
+# ------------------------------------------------------------------------------------------------ C07
+def check_C07(ctx):
+    q = ctx.tier == 'quick'
+    r = assume_model(ctx, 'GcdContract', {'M': 20 if q else 40}, timeout=3000)
+    ctx.model_must_hold(r, what='(gcdext contract unique / Kronecker oracle = definition)')
+    b = ctx.build('default')
+    funs = 'mpz_gcd:mpz_gcdext:mpz_lcm:mpz_invert:mpz_jacobi:mpz_kronecker:mpz_gcd_ui:mpz_lcm_ui:mpz_kronecker_si:mpz_kronecker_ui:mpz_si_kronecker:mpz_ui_kronecker:mpz_legendre'
+    ctx.validate(ctx.run_driver(b, 'alias', shards=8, extra='funs=' + funs, tier='thorough', timeout=900))
+    trace_drivers(ctx, [('c07_mpz', 16, 1500), ('c07_mpn', 8, 900)], pure_drivers=['c07_mpz'])
+    return ctx.finish('model_checking',
+        rule='R2: GcdContract shows for every |a|,|b|<=M that exactly one cofactor pair satisfies the manual\'s gcdext contract and that the Kronecker oracle equals the definition. '
+             'R3/R1: gcd/gcdext (3 forms)/lcm/invert/jacobi/kronecker variants on operand sizes on both sides of the Strassen/HGCD/GCDEXT_DC/GCD_DC crossovers x size differences x '
+             'contents (Fibonacci pairs, prescribed quotient sequences incl. quotients >= 2^64, huge common factor, equal, multiple, |b|=2g, powers of two, zero) x signs x aliasing; '
+             'mpn_gcd/gcd_1/gcdext on their documented domains. distinct = distinct calls; non-trivial = at least two limbs',
+        explanation='contract model + trace validation against Euclid/Kronecker definitions')
+
+
+# ------------------------------------------------------------------------------------------------ C08
+def check_C08(ctx):
+    q = ctx.tier == 'quick'
+    r = ctx.tlc_model('PowmEven', cfg_text=cfg(consts={'W': 2, 'MMAX': 48 if q else 200, 'BMAX': 9 if q else 20, 'EMAX': 7 if q else 12, 'Variant': '"ok"'}), name='PowmEven')
+    ctx.model_must_hold(r, what='(case analysis of mpz_powm: zero/negative exponent, even modulus recombination, negative base)')
+    b = ctx.build('default')
+    ctx.validate(ctx.run_driver(b, 'alias', shards=8, extra='funs=mpz_powm:mpz_powm_ui:mpz_pow_ui:mpz_ui_pow_ui', tier='thorough', timeout=900))
+    trace_drivers(ctx, [('c08_powm', 16, 1500), ('c08_pow', 4, 600)], pure_drivers=['c08_pow'])
+    return ctx.finish('model_checking',
+        rule='R2: PowmEven = every (b,e,m) in range through the transcribed case analysis at a 2-bit limb. R3/R1: mpz_powm/powm_ui for moduli odd / even with 2-adic valuation 1,63..65,128+ / '
+             'powers of two / +-1 / negative / B^n-1 at sizes around the REDC_1/REDC_2/REDC_N/POWM crossovers x exponent lengths at every sliding-window boundary +-1 x bit patterns x 9 base '
+             'classes, negative exponents with and without inverse, aliasing; pow_ui/ui_pow_ui incl. 0^0. distinct = distinct calls; non-trivial = at least two limbs',
+        explanation='case-analysis model + trace validation against modular exponentiation')
+
+
+# ------------------------------------------------------------------------------------------------ C09
+def check_C09(ctx):
+    q = ctx.tier == 'quick'
+    r = assume_model(ctx, 'RootContract', {'M': 150 if q else 400}, timeout=3000)
+    ctx.model_must_hold(r, what='(root / perfect power contracts = brute force definitions)')
+    b = ctx.build('default')
+    ctx.validate(ctx.run_driver(b, 'alias', shards=8, extra='funs=mpz_sqrt:mpz_sqrtrem:mpz_root:mpz_nthroot:mpz_rootrem:mpz_perfect_square_p:mpz_perfect_power_p', tier='thorough', timeout=900))
+    trace_drivers(ctx, [('c09_mpz', 16, 1500), ('c09_mpn', 8, 900)], pure_drivers=['c09_mpn'])
+    return ctx.finish('model_checking',
+        rule='R2: RootContract checks the root and perfect-power predicates of the specification against brute force for every |u|<=M. R3/R1: sqrt/sqrtrem/root/nthroot/rootrem/'
+             'perfect_square_p/perfect_power_p on u = k^n, k^n-1, k^n+1 and random u of the same size, k of 0..130 limbs (all-ones, runs, random), n in 1..200 and around the bit length, '
+             'negative u with odd n, aliasing; mpn_sqrtrem (also NULL remainder) and mpn_perfect_square_p on squares +-1 for every limb count. distinct = distinct calls; non-trivial = two limbs or more',
+        explanation='contract model + trace validation with exact root predicates')
+
+
+# ------------------------------------------------------------------------------------------------ C12
+def check_C12(ctx):
+    q = ctx.tier == 'quick'
+    r = ctx.tlc_model('MpqOps', cfg_text=cfg(consts={'K': 7 if q else 11, 'Variant': '"ok"'}), name='MpqOps', timeout=3000)
+    ctx.model_must_hold(r, what='(mpq_mul / mpq_add / mpq_sub store sequences under every alias pattern: exact and canonical)')
+    trace_drivers(ctx, [('c12', 16, 1500)], pure_drivers=['c12'])
+    return ctx.finish('model_checking',
+        rule='R2: MpqOps = all canonical operand pairs with |num|,den<=K x all 27 identity triples x {mul,add,sub} through the transcribed store sequences. R3/R1: add/sub/mul/div/inv/neg/abs/'
+             'mul_2exp/div_2exp/cmp*/equal/set_*/canonicalize/get_d on operands of 0..200 limbs built with prescribed common factors between the cross terms (each gcd branch), equal '
+             'denominators, integers, zero, powers of two, equal operands, all signs, every alias pattern; MPIR.tla requires the exact value AND canonical form. '
+             'distinct = distinct calls; non-trivial = at least two limbs',
+        explanation='store-sequence model + trace validation requiring canonical exact results')
+
+
+# ------------------------------------------------------------------------------------------------ C13
+def check_C13(ctx):
+    q = ctx.tier == 'quick'
+    r = assume_model(ctx, 'MpfContract', {'P': 6 if q else 8}, timeout=3000)
+    ctx.model_must_hold(r, what='(float accuracy/exactness predicates of SemF vs brute force on small dyadics)')
+    trace_drivers(ctx, [('c13', 16, 1500)], pure_drivers=['c13'])
+    return ctx.finish('model_checking',
+        rule='R2: MpfContract checks the accuracy/exactness predicates the trace specification applies (Close, AccurateQuot, AccurateSqrt, CopyOf) against brute-force rational '
+             'arithmetic on all small dyadics. R3/R1: add/sub/mul/div/sqrt and _ui forms, set_q/set_z/set_d, exact functions, comparisons and conversions for destination and operand precisions '
+             'chosen independently from {2,3,4,5,7,50} limbs, every exponent difference from no overlap to full overlap, low zero limbs, nearly cancelling operands, aliasing, '
+             'set_prec/set_prec_raw/swap histories; MPIR.tla evaluates the property\'s inequality exactly on dyadic rationals and the mpf format rules after every call. '
+             'distinct = distinct calls; non-trivial = at least two limbs',
+        explanation='exact dyadic evaluation of the accuracy bound on traces of the real library')
+
+
+# ------------------------------------------------------------------------------------------------ C06
+def check_C06(ctx):
+    import re
+    q = ctx.tier == 'quick'
+    r = assume_model(ctx, 'RadixText', {'M': 120 if q else 420, 'L': 3 if q else 4, 'EMIT': 'TRUE'}, timeout=3000)
+    ctx.model_must_hold(r, what='(text format round trip / number grammar)')
+    gr = []
+    for l in r['out'].splitlines():
+        m = re.match(r'<<"GR", (\d+), "(.*)", "(ok|rej|open)">>', l.strip())
+        if m and m.group(3) != 'open': gr.append((int(m.group(1)), m.group(2).replace('\\"', '"'), m.group(3)))
+    for mm in ctx.models:
+        if mm['name'] == 'RadixText': mm['states'] = max(mm['states'], len(gr)); mm['transitions'] = max(mm['transitions'], len(gr))
+    ctx.notes.append(f'number-grammar strings classified by TLC and replayed: {len(gr)} ({sum(1 for g in gr if g[2] == "ok")} accepted)')
+    b = ctx.build('default')
+    gf = os.path.join(ctx.scratch, 'grammar.tsv'); open(gf, 'w').write(''.join(f'{g[0]}\t{g[1]}\n' for g in gr))
+    paths = ctx.run_driver(b, 'c06_replay', shards=8, extra=f'file={gf}', timeout=900)
+    ctx.validate(paths)
+    trace_drivers(ctx, [('c06_mpz', 16, 1500), ('c06_long', 16, 1500), ('c06_misc', 2, 600), ('c06_mpn', 8, 900)], pure_drivers=['c06_mpz', 'c06_mpn'])
+    return ctx.finish('model_checking',
+        rule='R2: RadixText = round trip / alphabet / length / sizeinbase for every |v|<=M in all 96 bases, and ParseNum on EVERY string of length <= L over a 12-character alphabet '
+             'in 8 bases (each printed and replayed into mpz_set_str, mpq_set_str, mpz_init_set_str). R3/R1: get_str/sizeinbase/set_str in every base 2..62 and -2..-36 at sizes on both '
+             'sides of GET_STR_DC/GET_STR_PRECOMPUTE (limbs) and SET_STR_DC/SET_STR_PRECOMPUTE (digits), values b^k-1, b^k, b^k+1, runs, uniform; decorated strings (white space, leading '
+             'zeros, case flips), an invalid character at every position of short strings and seeded positions of long ones, base-0 prefixes, mpq strings, mpn_get_str/mpn_set_str. '
+             'distinct = distinct calls; non-trivial = an operand of at least two limbs',
+        explanation='text-format model + grammar enumeration replayed into the parser + trace validation of conversions')
+
+
+# ------------------------------------------------------------------------------------------------ C11
+def check_C11(ctx):
+    q = ctx.tier == 'quick'
+    for w, ws in ([(4, 3)] if q else [(4, 3), (5, 3), (6, 4)]):
+        r = assume_model(ctx, 'FitsGet', {'W': w, 'WS': ws}, name=f'FitsGet-W{w}', timeout=3000)
+        ctx.model_must_hold(r, what='(fits/get/cmp_si transcriptions vs exact ranges)')
+    b = ctx.build('default')
+    funs = 'mpz_cmp:mpz_cmpabs:mpz_cmp_ui:mpz_cmp_si:mpz_cmp_d:mpz_cmpabs_d:mpz_cmpabs_ui:mpz_set_ui:mpz_set_si:mpz_set_d:mpz_get_ui:mpz_get_si:mpz_get_d:mpz_get_d_2exp:mpz_fits_slong_p:mpz_fits_ulong_p:mpz_fits_sint_p:mpz_fits_uint_p:mpz_fits_sshort_p:mpz_fits_ushort_p:mpz_sgn'
+    ctx.validate(ctx.run_driver(b, 'alias', shards=8, extra='funs=' + funs, tier='thorough', timeout=900))
+    trace_drivers(ctx, [('c11', 16, 1500)], pure_drivers=['c11'])
+    return ctx.finish('model_checking',
+        rule='R2: FitsGet = every integer |z| < 2^(2W+1) through the transcribed fits/get/cmp_si code with W-bit limbs and longs. R3/R1: every get/set/fits/cmp function of mpz, mpq, mpf at '
+             '+-(2^b + d) for b in {0,1,7,8,15,16,31,32,52,53,54,62,63,64,65,127,128}, d in {-1,0,1, wide odd factor}, against 42 doubles (+-0, subnormals, 2^53 neighbourhood, type '
+             'boundaries, huge, +-inf, random) and the doubles adjacent to the value; rationals and floats sitting just above/below each boundary. Comparisons must give the sign of the EXACT '
+             'difference (doubles as dyadic rationals), conversions the exact truncation. distinct = distinct calls; non-trivial = value of at least two limbs',
+        explanation='type-width model + trace validation with exact dyadic arithmetic')
+
+
+# ------------------------------------------------------------------------------------------------ C16
+def bin_limits():
+    """table limits of mpz/bin_uiui.c as compiled for 64-bit limbs (private #defines of that file)"""
+    import re
+    d = dict(FACT=25, EXT=67, CENTRAL=35, GOET=1000)
+    try:
+        src = open(os.path.join(os.environ.get('VERIF_REPO', '/repo'), 'mpz/bin_uiui.c')).read()
+        m = re.search(r'#define BIN_GOETGHELUCK_THRESHOLD\s+(\d+)', src)
+        if m: d['GOET'] = int(m.group(1))
+        blk = src[src.index('GMP_NUMB_BITS'):]
+        for key, name in (('FACT', 'ODD_FACTORIAL_TABLE_LIMIT'), ('EXT', 'ODD_FACTORIAL_EXTTABLE_LIMIT'), ('CENTRAL', 'ODD_CENTRAL_BINOMIAL_TABLE_LIMIT')):
+            vals = re.findall(r'#define %s \((\d+)\)' % name, src)
+            if vals: d[key] = max(int(v) for v in vals)      # the 64-bit branch has the larger limits
+    except Exception: pass
+    return d
+
+
+def check_C16(ctx):
+    import random, re
+    q = ctx.tier == 'quick'
+    lim = bin_limits()
+    r = assume_model(ctx, 'BinDispatch', dict(lim, NMAX=20000 if q else 42000, EMIT='TRUE'), timeout=3000)
+    ctx.model_must_hold(r, what='(mpz_bin_uiui algorithm selection: table limits sound and tight)')
+    pairs = [(int(a), int(b)) for a, b in re.findall(r'<<"BIN", (\d+), (\d+), "\w+">>', r['out'])]
+    rng = random.Random(ctx.seed); rng.shuffle(pairs)
+    small = [p for p in pairs if p[0] < 300]; big = [p for p in pairs if p[0] >= 300]
+    pairs = small[:900 if q else 4000] + big[:500 if q else 5000]
+    for mm in ctx.models:
+        if mm['name'] == 'BinDispatch': mm['states'] = max(mm['states'], len(pairs)); mm['transitions'] = mm['states']
+    b = ctx.build('default')
+    pf = os.path.join(ctx.scratch, 'bin.lst'); open(pf, 'w').write(''.join(f'{n} {k}\n' for n, k in pairs))
+    paths = ctx.run_driver(b, 'c16_binshapes', shards=8, extra=f'file={pf}', timeout=1500)
+    ctx.validate(paths)
+    funs = 'mpz_fac_ui:mpz_2fac_ui:mpz_mfac_uiui:mpz_primorial_ui:mpz_bin_ui:mpz_bin_uiui:mpz_fib_ui:mpz_fib2_ui:mpz_lucnum_ui:mpz_lucnum2_ui:mpz_remove'
+    ctx.validate(ctx.run_driver(b, 'alias', shards=8, extra='funs=' + funs, tier='thorough', timeout=900))
+    trace_drivers(ctx, [('c16_comb', 16, 1500), ('c16_bin', 16, 1500), ('c16_prime', 16, 1500)], pure_drivers=['c16_comb', 'c16_bin'])
+    return ctx.finish('model_checking',
+        rule='R2: BinDispatch = the selection of mpz_bin_uiui with the table limits of the tree: every basecase result, odd factorial and odd central binomial table entry fits a limb and each '
+             'limit is tight; the (n,k) adjacent to region boundaries are printed and replayed. R3/R1: fac/2fac/mfac/primorial/fib/fib2/lucnum/lucnum2 for every n up to 420 (thorough 1400) and '
+             'at FAC_DSC and sieve regime switches up to 10^5; bin_uiui for all k at every n<=70 (130) and at region boundaries up to n=2^64-1; bin_ui negative and multi-limb n; remove with '
+             'multiplicities up to 200 and multi-limb factors; primality functions on every n<=7000 (65536), Carmichael numbers (incl. Chernick triples found at run time), strong pseudoprimes, '
+             'prime squares, close prime products, neighbourhoods of 2^32, 2^53, 2^64, 2^128; nextprime / next_prime_candidate gaps. Oracles: definitions in BigZ, deterministic Miller-Rabin. '
+             'distinct = distinct calls; non-trivial = a value of at least two limbs',
+        explanation='dispatch/table model + trace validation against combinatorial definitions and a deterministic primality oracle',
+        extra_cov=dict(bin_limits=lim, bin_boundary_pairs_replayed=len(pairs)))
